@@ -13,6 +13,7 @@
   induction over box descriptors is future work (DESIGN.md).
 -/
 import MediaSan.Mp4.Sanitize
+import MediaSan.Generated.Mp4Consts
 namespace MediaSan.Props.C05
 open MediaSan MediaSan.Mp4
 
@@ -164,6 +165,12 @@ theorem C05_ftyp_len (b : Bytes) :
     unfold parseFtyp
     rw [if_neg (by omega), if_neg (by omega)]
     exact ⟨_, rfl⟩
+
+/-- The constants the model uses are the ones in the source (extracted on every run): the ftyp limit, the
+    default metadata limit, the compatible brand and the reader's look-ahead. -/
+theorem C05_constants :
+    maxFtypSize = Generated.mp4MaxFtypSize ∧ ({} : Config).maxMetadataSize = Generated.mp4DefaultMaxMetadataSize ∧
+    isomBrand = Generated.mp4CompatibleBrand ∧ headerMaxSize = Generated.mp4HeaderMaxSize := by decide
 
 -- Non-vacuity
 example : parseCo 4 [0,0,0,0, 0,0,0,2, 0,0,0,1, 0,0,0,2] = .ok ⟨4, 2, [0,0,0,1, 0,0,0,2]⟩ := by decide
